@@ -48,8 +48,13 @@ MANIFEST_NOTE = ("Trusted: Lean kernel (+propext/Classical.choice/Quot.sound), M
                  "statement order and call flag of the LU path is regenerated from the source and tied to the model by the "
                  "tie_* theorems; what remains hand-written is the fold structure itself -- which loop nests in which and "
                  "the meaning of `swap` -- checked by differential execution over GF(p); any harmless change of pivot choice "
-                 "is invisible there by design; a rewrite of the LU code that leaves the translator's statement grammar, "
-                 "e.g. a hoisted reciprocal or row references, is reported as a broken tie and then needs a failing input "
+                 "is invisible there by design; round five: the translator normalises behaviour-preserving respellings before "
+                 "matching -- hoisted size locals, row / entry references, private void helpers, while / range-for / iterator / "
+                 "std::iota / std::accumulate loops, flipped comparisons, the three count-down spellings, guard clauses in the "
+                 "dispatch and in the singular-lane block (decision table), const / auto / renamed locals and compound "
+                 "assignments in the closed forms -- each rule with a checked side condition, so these no longer alarm; a "
+                 "rewrite that still leaves the grammar, e.g. a hoisted reciprocal or copied entry, a value-returning helper, "
+                 "a lambda, is reported as a broken tie and then needs a failing input "
                  "from the search to count as a violation of the property), g++/ASan/UBSan. Floating point: proved for real scalars "
                  "under the standard rounding model without overflow/underflow, in terms of the computed factors |L||U| (no "
                  "growth-factor bound); that the machine arithmetic satisfies this model (and commutes with power-of-two "
@@ -104,8 +109,8 @@ RULE = ("cases: field gf|f64|ld|c64|v64 (v64 = LoopSIMD<double,4>, four independ
         "gen_scale_* / flt_A_exp2_* = binary magnitude classes of the float operands; simd_* = lane mixes")
 ASSUMPTIONS = [
     "the LU model lean/DuneVerif/Model/C02.lean is hand-written; since round four its scalar kernels, loop headers, statement order, singularity test and luDecomposition call flags are regenerated from densematrix.hh / diagonalmatrix.hh and tied to it by the tie_* theorems; the fold structure (nesting, meaning of swap) rests on the differential run over GF(32003)",
-    "the translator's LU grammar accepts renamed loop variables / locals, any whitespace and bracing, i++ / ++i, compound or spelled-out assignments, commuted and re-associated right-hand sides, either orientation of the pivot comparison (> or >=), pivot search from i or i+1, Simd::cond with == or != condition, the column un-permutation with or without its guard; any other rewrite of these functions (hoisted sub-expressions, row references, additional statements) is reported as a broken obligation and triggers the search for a failing input",
-    "the closed forms for n<=3, FMatrixHelp::invertMatrix*, the list of sizes with a closed-form branch and the default arguments of doPivoting are regenerated from the source by tools/translators/tr_c02.py (straight-line grammar; anything else raises)",
+    "the translator's LU grammar accepts renamed loop variables / locals, any whitespace and bracing, i++ / ++i, compound or spelled-out assignments, commuted and re-associated right-hand sides, either orientation of the pivot comparison (> or >=), pivot search from i or i+1, Simd::cond with == or != condition, the column un-permutation with or without its guard; round five: before matching, the statement trees are normalised -- while loops / increments in the body -> for loops, locals that only name a size or begin()/end() (const, or never assigned) are inlined, references that only name a row or an entry are inlined when their index variables are not modified, private void helper functions without return are inlined at their call sites (reference parameters by substitution, by-value parameters only unmodified scalars), range-for over pivot_ / diag_ / range(a,b), iterator loops, std::iota and std::accumulate(.., std::multiplies) -> the index loop, 'n > i' and 'i != n' (upward from 0) -> 'i < n', the three spellings of a count-down loop over n-1..0 -> one header (an unsigned counter with 'i >= 0' is rejected), the throwEarly / return block is compared as a decision table over (throwEarly, all lanes nonsingular, some lane nonsingular), the two Simd::cond updates of the pivot search may stand in either order; any other rewrite of these functions (hoisted values such as a reciprocal or a copied entry, value-returning helpers, lambdas / std::transform, reordered loops, additional statements) is reported as a broken obligation and triggers the search for a failing input",
+    "the closed forms for n<=3, FMatrixHelp::invertMatrix*, the list of sizes with a closed-form branch and the default arguments of doPivoting are regenerated from the source by tools/translators/tr_c02.py (straight-line grammar; round five: const / auto locals, K t(e), compound assignments, const references naming an entry that is not written meanwhile, a bare return ending a void block (guard-clause dispatch; a size branch without else must return), 'k == rows()', 'this->rows()'; local names are free because the generated definitions are alpha-equivalent and the theorems are proved by ring; anything else raises)",
     "floating point: the backward-error theorems are about the models over reals with a rounding function of relative error <= u (standard model, no overflow/underflow, real scalars); that IEEE double / x87 long double / std::complex arithmetic as compiled meets it is assumed; harness residual tolerance 100 n^2 eps relative to ||A|| ||x|| + ||b|| (solve), ||A|| ||B|| (inverse), prod of row 1-norms (determinant)",
     "the theorems need absval x = 0 <-> x = 0 and 0 <= absval x (true for abs on real/complex fields and for the harness' GF(p) class)",
     "'solve and determinant never modify A or b' is decided by the harness (operands compared before/after), the functional model cannot express it",
